@@ -18,8 +18,9 @@ func init() {
 		ID: "C06",
 		Decides: "layout: every access to state guarded by the layout mutex and every index read/write helper runs with the mutex held, no helper that runs under the caller's lock releases it, nothing that takes the lock is called with it held, and every index read-modify-write function holds it from the read to the write; " +
 			"no slice of the tag/referrer tables is shrunk while being ranged over forwards; registry tag-delete fallback deletes the digest of the placeholder it pushed (never the live manifest) and the placeholder is unique (time stamp + tag); " +
-			"the tag listing loop exits only on the limit, on an error, or when no next link was returned, and appends every page; every cache access of the registry scheme uses the digest-normalised key.",
-		NotCovered: "agreement with a reference map over all histories; indexSet pruning semantics; foreign ref.name forms (suffix match in indexGet vs exact match in tagDelete/indexSet); registry-side semantics.",
+			"the tag listing loop exits only on the limit, on an error, or when no next link was returned, and appends every page; every cache access of the registry scheme uses the digest-normalised key; " +
+			"in the layout a loose (suffix) match of a ref.name annotation is only tried after a complete exact pass found nothing.",
+		NotCovered: "agreement with a reference map over all histories; indexSet pruning semantics; which entry a suffix match picks among several foreign names; registry-side semantics.",
 		Run:        runC06,
 	})
 }
@@ -31,6 +32,8 @@ func runC06(p *core.Prog, r *core.Report) {
 	c06R4(p, r)
 	r.Rule("C06.R5", "every access to the registry scheme's manifest/referrer caches keys by the SetDigest-normalised reference, so a delete evicts exactly what a put or get stored", 8)
 	cacheKeyRule(p, r, "C06.R5", regCacheCalls(p))
+	c06R6(p, r)
+	staleIndexRule(p, r, "C06.R7")
 }
 
 // lockProblemsToReport turns the problems of a lock analysis into violations of rule.
@@ -605,4 +608,196 @@ func onlyErrorReturn(b *ssa.BasicBlock) bool {
 		}
 	}
 	return false
+}
+
+// ---------------------------------------------------------------------------------------------
+// R6 an exact tag match is never pre-empted by a loose one
+
+const ociRefNameAnnotation = "org.opencontainers.image.ref.name"
+
+// refNameLookup reports whether v is (derived by extraction/phi from) a lookup of the OCI ref.name
+// annotation in a map.
+func refNameLookup(v ssa.Value, seen map[ssa.Value]bool) bool {
+	if v == nil || seen[v] {
+		return false
+	}
+	seen[v] = true
+	switch x := v.(type) {
+	case *ssa.Lookup:
+		if s, ok := core.ConstString(x.Index); ok && s == ociRefNameAnnotation {
+			return true
+		}
+	case *ssa.Extract:
+		return refNameLookup(x.Tuple, seen)
+	case *ssa.Phi:
+		for _, e := range x.Edges {
+			if refNameLookup(e, seen) {
+				return true
+			}
+		}
+	case *ssa.UnOp:
+		if x.Op == token.MUL {
+			if a, ok := x.X.(*ssa.Alloc); ok {
+				for _, st := range core.StoresToCell(a) {
+					if refNameLookup(st.Val, seen) {
+						return true
+					}
+				}
+			}
+		}
+	}
+	return false
+}
+
+// isTagValue: the value is computed from the Tag field of a reference or from a string parameter
+// (a helper that receives the requested tag).
+func isTagValue(v ssa.Value) bool {
+	if dependsOnField(v, modPath("types/ref"), "Ref", "Tag") {
+		return true
+	}
+	for _, o := range core.Origins(v, core.SliceOpts{}) {
+		if o.Kind == core.OParam && types.Identical(o.Param.Type().Underlying(), types.Typ[types.String]) {
+			return true
+		}
+		if o.Kind == core.OBinOp {
+			if bo, ok := o.Val.(*ssa.BinOp); ok {
+				for _, x := range []ssa.Value{bo.X, bo.Y} {
+					if pr, ok := x.(*ssa.Parameter); ok && types.Identical(pr.Type().Underlying(), types.Typ[types.String]) {
+						return true
+					}
+				}
+			}
+		}
+	}
+	return false
+}
+
+func c06R6(p *core.Prog, r *core.Report) {
+	const rule = "C06.R6"
+	r.Rule(rule, "layout tag lookup: a loose comparison of a ref.name annotation (suffix, prefix, substring, case folding, pattern) is evaluated only after a complete pass of exact comparisons over the same entries has found nothing, so an exact tag can never be shadowed by a foreign name that merely ends in it", 1)
+	loose := map[string]bool{"HasSuffix": true, "HasPrefix": true, "Contains": true, "EqualFold": true, "Index": true, "LastIndex": true, "MatchString": true, "Cut": true, "TrimPrefix": true, "TrimSuffix": true}
+	n := 0
+	type scanT struct {
+		exact []*ssa.BinOp
+		loose []*ssa.Call
+	}
+	scans := map[*ssa.Function]scanT{}
+	exactOnly := map[*ssa.Function]bool{}
+	scan := func(fn *ssa.Function) (exact []*ssa.BinOp, looseCalls []*ssa.Call) {
+		for _, b := range fn.Blocks {
+			for _, in := range b.Instrs {
+				switch x := in.(type) {
+				case *ssa.BinOp:
+					if x.Op == token.EQL && (refNameLookup(x.X, map[ssa.Value]bool{}) || refNameLookup(x.Y, map[ssa.Value]bool{})) {
+						exact = append(exact, x)
+					}
+				case *ssa.Call:
+					cal := core.Callee(x)
+					if cal == nil || cal.Pkg() == nil || !loose[cal.Name()] {
+						continue
+					}
+					if pp := cal.Pkg().Path(); pp != "strings" && pp != "regexp" && pp != "path" && pp != "path/filepath" {
+						continue
+					}
+					// a lookup: the annotation is matched against the requested tag
+					isName, isTag := false, false
+					for _, a := range x.Call.Args {
+						if refNameLookup(a, map[ssa.Value]bool{}) {
+							isName = true
+						} else if isTagValue(a) {
+							isTag = true
+						}
+					}
+					if isName && isTag {
+						looseCalls = append(looseCalls, x)
+					}
+				}
+			}
+		}
+		// only comparisons against the requested tag (a Ref's Tag or a string parameter) are lookups
+		var ex2 []*ssa.BinOp
+		for _, e := range exact {
+			if isTagValue(e.X) || isTagValue(e.Y) {
+				ex2 = append(ex2, e)
+			}
+		}
+		return ex2, looseCalls
+	}
+	for _, fn := range pkgFuncs(p, "scheme/ocidir") {
+		e, l := scan(fn)
+		scans[fn] = scanT{e, l}
+		if len(e) > 0 && len(l) == 0 {
+			exactOnly[fn] = true
+		}
+	}
+	for _, fn := range pkgFuncs(p, "scheme/ocidir") {
+		fname := p.FuncName(fn)
+		exact, looseCalls := scans[fn].exact, scans[fn].loose
+		if len(exact) == 0 && len(looseCalls) == 0 {
+			continue
+		}
+		n++
+		if len(looseCalls) == 0 {
+			r.Held(rule, fname, "ref.name compared exactly", p.Pos(exact[0].Pos()), fmt.Sprintf("%d exact comparison(s), no loose match", len(exact)))
+			continue
+		}
+		loops := core.Loops(fn)
+		lab := labeler{}
+		for _, lc := range looseCalls {
+			label := lab.next("loose ref.name match " + lc.Call.Value.Name())
+			// find a loop with an exact comparison that does not contain the loose call and whose
+			// exhaustion (an exit edge leaving from the header) lies on every path to the loose call
+			ok := false
+			why := "no complete exact pass precedes it"
+			if len(exact) == 0 {
+				why = "the function has no exact comparison of the annotation at all"
+			}
+			for _, l := range loops {
+				has := false
+				for _, e := range exact {
+					if l.Blocks[e.Block()] {
+						has = true
+					}
+				}
+				if !has {
+					continue
+				}
+				if l.Blocks[lc.Block()] {
+					why = "the loose match is evaluated inside the pass that makes the exact comparison, so whichever entry comes first in the index wins"
+					continue
+				}
+				reach := core.Reach{StopEdge: func(from, to *ssa.BasicBlock) bool {
+					return from == l.Header && !l.Blocks[to]
+				}}.FromEntry(fn)
+				if !reach[lc] {
+					ok = true
+					break
+				}
+				why = "the loose match can be reached without the exact pass having run to its end"
+			}
+			if !ok {
+				// the exact pass may live in a helper: every path to the loose match passes a call of a
+				// function of this package that compares the annotation exactly and has no loose match
+				passes := core.Reach{Stop: func(in ssa.Instruction) bool {
+					c, isCall := in.(ssa.CallInstruction)
+					if !isCall {
+						return false
+					}
+					g := core.CalleeFn(c)
+					return g != nil && exactOnly[g]
+				}}.FromEntry(fn)
+				if len(exactOnly) > 0 && !passes[lc] {
+					ok = true
+				}
+			}
+			if ok {
+				r.Held(rule, fname, label, p.Pos(lc.Pos()), "only reached through the exhaustion exit of a loop that compares the annotation exactly")
+			} else {
+				r.Violated(rule, fname, label, p.Pos(lc.Pos()), why)
+			}
+		}
+	}
+	if n == 0 {
+		r.Undecided(rule, "scheme/ocidir", "ref.name lookups", "", "no comparison of the ref.name annotation found in the layout scheme")
+	}
 }
